@@ -14,7 +14,7 @@ git apply --check $SRC/out/patch.diff || { echo "PATCH DOES NOT APPLY"; exit 2; 
 # demo files = untracked files of the agent's worktree outside out/
 DEMOS=$(cd $SRC && git status --porcelain | grep '^??' | awk '{print $2}' | grep -v '^out/' | grep -v '\.mypatch$')
 echo "demo files: $DEMOS"
-DEMOCMD=$(cat $SRC/out/demo_cmd.txt | grep -v '^#' | grep -v '^export' | grep 'go ' | head -1 | sed "s#/tmp/seed/$ID#$W#g")
+DEMOCMD=$(cat $SRC/out/demo_cmd.txt | grep -v '^#' | sed 's/^export [^;]*; *//' | grep -v '^export' | grep 'go ' | head -1 | sed "s#/tmp/seed/$ID#$W#g")
 echo "demo cmd: $DEMOCMD"
 git apply $SRC/out/patch.diff
 echo "== suite with patch (run 1)"; go build ./... && go test -vet=off -count=1 -timeout 25m ./... 2>&1 | grep -v "no test files" | tail -8
